@@ -74,7 +74,7 @@ fn main() {
         });
         rng = SmallRng::seed_from_u64(r["rng_seed"].as_u64().unwrap());
     } else {
-        for size in 0..=max_size {
+        for size in args.usize("min_size", 0)..=max_size {
             let limits: Vec<usize> = if size <= 24 { (0..=size + 3).collect() } else { vec![0, 1, 2, 3, size / 2, size - 2, size - 1, size, size + 1] };
             for limit in limits {
                 let positions: Vec<Option<usize>> = if size <= 12 {
@@ -120,6 +120,8 @@ fn main() {
         } else {
             24
         };
+        // interpreter runs (Miri) cap the draws per case; full offset-pair coverage is then not demanded (--full_cover_size 0)
+        let draws = draws.min(args.usize("draws_cap", usize::MAX));
         let mut seen_pairs: BTreeSet<(usize, usize)> = BTreeSet::new();
         let mut maps = TorrentMaps::default();
         let mut built = false;
